@@ -169,7 +169,10 @@ def regex_call(I, how, pattern, s):
     if extra.get('assume'):
         from .symex import Frame
         fr = I.cur_frame
-        sub = Frame(fr.func, I.env.spec_module, {'M': mv}, cls=fr.cls, parent=I.spec_frame(fr))
+        top = getattr(I, '_top_frame', None)
+        scope = dict(top.locals) if top is not None else {}      # the contract's parameters are visible too
+        scope['M'] = mv
+        sub = Frame(fr.func, I.env.spec_module, scope, cls=fr.cls, parent=I.spec_frame(fr))
         I.p.assume(I.formula(I.parse_src(extra['assume']), sub))
     return mv
 
